@@ -5,7 +5,7 @@ binding are compared with the Lean model M4 (Klepto/Model/Keys.lean)."""
 import os, sys, json, inspect, functools, hashlib, itertools, collections
 from common import *
 
-POOL = [1, 1.0, True, 2, 0, -3, 2.5, 'a', 'x', 'y', None, (1, 2), 'k', 7, 'z', 0.1, 10]
+POOL = [1, 1.0, True, 2, 0, -3, 2.5, 'a', 'x', 'y', None, (1, 2), 'k', 7, 'z', 0.1, 10, '\u03a9mega', '\u03a3mega']      # (two texts outside latin-1 that differ in one character)
 UNHASHABLE = [[1], [2, 3], {'q': 1}]
 
 
@@ -329,6 +329,8 @@ KEYMAPS = [
     ('chain', dict(typed=True, _outer_kind='sha1', _inner=['raw', {'sentinel': True}])),
     # stringmap with an `encoding`: 'repr' (a string-like type: repr of the key) and 'utf_8' (a codec: repr of the key, encoded)
     ('stringr', dict()), ('stringu', dict(typed=True)), ('stringr', dict(flat=False, sentinel=True)),
+    # a NARROW codec: text it cannot encode has no key (the keymap raises; it must not be mapped onto something it can encode)
+    ('stringl', dict()),
 ]
 
 
@@ -344,6 +346,7 @@ def make_km(kind, opts):
     if kind == 'string': return stringmap(**o)
     if kind == 'stringr': return stringmap(encoding='repr', **o)
     if kind == 'stringu': return stringmap(encoding='utf_8', **o)
+    if kind == 'stringl': return stringmap(encoding='latin_1', **o)
     if kind == 'pickle': return picklemap(**o)
     if kind == 'picklep': return picklemap(serializer='pickle', **o)
     return hashmap(algorithm=kind, **o)
@@ -354,6 +357,11 @@ def encoder(kind):
     if kind == 'string': return str
     if kind in ('pickle', 'stringr'): return repr
     if kind == 'stringu': return lambda o: repr(o).encode('utf_8')
+    if kind == 'stringl':
+        def enc_l(o):
+            try: return repr(o).encode('latin_1')
+            except UnicodeEncodeError: return '<<no key: the codec cannot encode this text>>'
+        return enc_l
     if kind == 'picklep': return lambda o: __import__('pickle').dumps(o)
     return lambda o: hashlib.new(kind, repr(o).encode()).hexdigest()
 
